@@ -1142,3 +1142,25 @@ Qed.
 Lemma http_limit_off_by_one_refuted :
   http_server_recv_lim 2 2 (-1) [x61; x62; x63] = HDeliver [x61; x62].
 Proof. vm_compute. reflexivity. Qed.
+
+(* ---- ownership of the request buffer ---------------------------------------------------------- *)
+
+Lemma abandoned_copy_exact max i b0 b1 : wf_frame (Server max) (i, b0) ->
+  recv_frames (Server max) (abandoned_wire Copies i b0 b1) = ([(i, b0)], EndEOF).
+Proof. intros H. unfold abandoned_wire. apply (lengths_socket (Server max) i b0 H). Qed.
+
+Lemma abandoned_alias_delivers_later_bytes max i b0 b1 :
+  wf_frame (Server max) (i, b0) -> List.length b1 = List.length b0 ->
+  recv_frames (Server max) (abandoned_wire Aliases i b0 b1) = ([(i, b1)], EndEOF).
+Proof.
+  intros H Hl. unfold abandoned_wire. rewrite <- Hl.
+  apply (lengths_socket (Server max) i b1). unfold wf_frame in *. cbn [fst snd] in *. rewrite Hl. exact H.
+Qed.
+
+Lemma abandoned_alias_refuted :
+  exists i b0 b1, wf_frame (Server 100) (i, b0) /\ List.length b1 = List.length b0 /\
+    fst (recv_frames (Server 100) (abandoned_wire Aliases i b0 b1)) <> [(i, b0)].
+Proof.
+  exists 1, [x68; x69], [x58; x58]. split; [repeat split; cbn; lia|]. split; [reflexivity|].
+  vm_compute. discriminate.
+Qed.
